@@ -1021,6 +1021,134 @@ Definition tr_unarmed : list event := [
   EvG GShutdownRet
 ]%N.
 
+(* harness program (a camera whose every second frame call returns no frame; 3 frames requested and stored):
+ring 600
+filtring 600
+seed 7
+cam 0 w=4 h=3 type=1 trig=0 pace=1
+init
+camempty 0 2
+cfg 0 cam=A sto=A n=3 avg=0 delay=0
+configure
+start
+yield 80
+stop
+state
+shutdown *)
+Definition tr_empty : list event := [
+  EvS false ACli (DOpenCam 1);
+  EvS false ACli (DSetCam 1);
+  EvS false ACli (DOpenSto 2);
+  EvS false ACli (DSetSto 2);
+  EvG (GConfigure true false 3 0);
+  EvG GStartCall;
+  EvS false ACli (DStoStart 2 true);
+  EvS false ACli (Accept true);
+  EvS false ACli (RMapEnter RdSink);
+  EvS false ACli (RMap RdSink []);
+  EvS false ACli (RUnmap RdSink 0);
+  EvS false ACli (Spawn RSink);
+  EvS false ACli (Spawn RFilt);
+  EvS false ACli (DCamStart 1 true 2);
+  EvS false ACli (Spawn RSrc);
+  EvG (GStartRet true);
+  EvS false ASink (RMapEnter RdSink);
+  EvS false ASrc (WMapEnter);
+  EvS false ASink (RMap RdSink []);
+  EvS false ASink (RUnmap RdSink 0);
+  EvS false ASrc (WMap true);
+  EvS false ASink (RMapEnter RdSink);
+  EvS false ASink (RMap RdSink []);
+  EvS false ASink (RUnmap RdSink 0);
+  EvS false ASrc (DGetFrame 1 (Some (0, 2, 32212516913)));
+  EvS false ASink (RMapEnter RdSink);
+  EvS false ASrc (Commit true (mkF 2 0 0 32212516913));
+  EvS false ASrc (WMapEnter);
+  EvS false ASrc (WMap true);
+  EvS false ASink (RMap RdSink [(mkF 2 0 0 32212516913)]);
+  EvS false ASink (DAppend 2 true [(mkF 2 0 0 32212516913)]);
+  EvS false ASink (RUnmap RdSink 1);
+  EvS false ASink (RMapEnter RdSink);
+  EvS false ASink (RMap RdSink []);
+  EvS false ASink (RUnmap RdSink 0);
+  EvS false ASink (RMapEnter RdSink);
+  EvS false ASrc (DGetEmpty 1);
+  EvS false ASink (RMap RdSink []);
+  EvS false ASink (RUnmap RdSink 0);
+  EvS false ASink (RMapEnter RdSink);
+  EvS false ASink (RMap RdSink []);
+  EvS false ASink (RUnmap RdSink 0);
+  EvS false ASrc (WMapEnter);
+  EvS false ASink (RMapEnter RdSink);
+  EvS false ASrc (WMap true);
+  EvS false ASink (RMap RdSink []);
+  EvS false ASink (RUnmap RdSink 0);
+  EvS false ASrc (DGetFrame 1 (Some (1, 2, 32212516913)));
+  EvS false ASrc (Commit true (mkF 2 1 1 32212516913));
+  EvS false ASrc (WMapEnter);
+  EvS false ASrc (WMap true);
+  EvS false ASink (RMapEnter RdSink);
+  EvS false ASink (RMap RdSink [(mkF 2 1 1 32212516913)]);
+  EvS false ASink (DAppend 2 true [(mkF 2 1 1 32212516913)]);
+  EvS false ASink (RUnmap RdSink 1);
+  EvS false ASink (RMapEnter RdSink);
+  EvS false ASrc (DGetEmpty 1);
+  EvS false ASrc (WMapEnter);
+  EvS false ASrc (WMap true);
+  EvS false ASink (RMap RdSink []);
+  EvS false ASink (RUnmap RdSink 0);
+  EvS false ASink (RMapEnter RdSink);
+  EvS false ASink (RMap RdSink []);
+  EvS false ASink (RUnmap RdSink 0);
+  EvS false ASink (RMapEnter RdSink);
+  EvS false ASink (RMap RdSink []);
+  EvS false ASink (RUnmap RdSink 0);
+  EvS false ASink (RMapEnter RdSink);
+  EvS false ASink (RMap RdSink []);
+  EvS false ASink (RUnmap RdSink 0);
+  EvS false ASink (RMapEnter RdSink);
+  EvS false ASink (RMap RdSink []);
+  EvS false ASink (RUnmap RdSink 0);
+  EvS false ASink (RMapEnter RdSink);
+  EvS false ASink (RMap RdSink []);
+  EvS false ASink (RUnmap RdSink 0);
+  EvS false ASink (RMapEnter RdSink);
+  EvS false ASink (RMap RdSink []);
+  EvS false ASink (RUnmap RdSink 0);
+  EvS false ASrc (DGetFrame 1 (Some (2, 2, 32212516913)));
+  EvS false ASrc (Commit true (mkF 2 2 2 32212516913));
+  EvS false ASrc (CbStopFilter);
+  EvS false ASink (RMapEnter RdSink);
+  EvS false ASink (RMap RdSink [(mkF 2 2 2 32212516913)]);
+  EvS false ASink (DAppend 2 true [(mkF 2 2 2 32212516913)]);
+  EvS false AFilt (Exit RFilt);
+  EvS false ASink (RUnmap RdSink 1);
+  EvS false ASink (RMapEnter RdSink);
+  EvS false ASrc (Joined RFilt);
+  EvS false ASrc (CbStopSink);
+  EvS false ASrc (DCamStop 1);
+  EvS false ASrc (Exit RSrc);
+  EvS false ASink (RMap RdSink []);
+  EvS false ASink (RUnmap RdSink 0);
+  EvS false ASink (RMapEnter RdSink);
+  EvS false ASink (RMap RdSink []);
+  EvS false ASink (RUnmap RdSink 0);
+  EvS false ASink (DStoStop 2);
+  EvS false ASink (Exit RSink);
+  EvG GStopCall;
+  EvS false ACli (Joined RSrc);
+  EvS false ACli (Joined RSink);
+  EvS false ACli (Accept true);
+  EvG GStopRet;
+  EvG (GState HArmed);
+  EvG GShutdownCall;
+  EvS false ACli (Accept false);
+  EvS false ACli (Accept true);
+  EvS false ACli (DCloseCam 1);
+  EvS false ACli (DCloseSto 2);
+  EvG GShutdownRet
+]%N.
+
 Definition after (tr : list event) (n : nat) : option sys := accepts init_sys (firstn n tr).
 Definition before_second_stop : nat := 236.
 Definition before_abort_return : nat := 144.
@@ -1029,5 +1157,6 @@ Definition before_second_stop_f : nat := 121.
 Definition at_failing_append : nat := 43.
 Definition after_abort_refusal : nat := 117.   (* tr_abort: the first 117 events, i.e. up to and including the client's Accept false *)
 Definition before_start_refused : nat := 66.
+Definition before_first_empty_poll : nat := 36.  (* tr_empty *)
 Definition before_src_refused : nat := 75.     (* tr_unarmed: the camera failed in the first acquisition, no configure since *)
 Definition before_sink_refused : nat := 138.   (* tr_unarmed: the storage failed in the second acquisition, no configure since *)
